@@ -99,6 +99,7 @@ const (
 	callTokenFail
 	callPrivileged
 	callAgent
+	callBigReturn // successful call whose result is large (kilobytes)
 )
 
 type pkt struct {
